@@ -33,4 +33,7 @@ CHECKS = {
  "C12": {"technique": "differential monitor over API routes + independent reference model",
          "text": "Each random process set is entered through six routes (Event objects, rate-carrying Transitions in event=, legacy transition=/birth_death=, incremental add_* in random order, explicit ODE equations, shuffled order with string declarations), births named by origin or destination; every route's symbolic ODE and ode/jacobian/eventRateVector values must agree with the Event route and the independent reference. Exploration.",
          "note": TB},
+ "C04": {"technique": "offline trace checker over raw paths + icontract post-condition on _checkJump + step log from probes on firstReaction/tauLeap/_jump; hostile random streams; ASan/UBSan build of the Cython kernel",
+         "text": "Generated event models (all shape classes of the quantifier incl. single-event/single-state) are simulated through the real solve_stochast with both algorithms, adaptive and fixed tau, several epsilon, numpy and Python initial times; every returned path is checked clause by clause (start, strictly increasing times, non-negative integer counts, one event per exact step, dx = V.counts with an independently derived V, dt consistency, explained early stops) and against the step log recorded at the hooks; a second lane substitutes legal extreme draws into rexp/rpois, a third repeats the workload under an ASan+UBSan build of _tau_leap. Exploration: held on the paths executed.",
+         "note": TB + " icontract 2.7.3; clang-14 ASan/UBSan runtimes (the sanitizer lane is optional: inconclusive without clang)."},
 }
